@@ -164,6 +164,8 @@ func (builder *RuleBuilder) BuildRuleFromResource(name, version string, resource
 		return fmt.Errorf("KnowledgeBase %s:%s is not in this library", name, version)
 	}
 
+	rollback := knowledgeBase.Checkpoint()
+
 	listener := antlr2.NewGruleV3ParserListener(knowledgeBase, errReporter)
 
 	psr := parser.Newgrulev3Parser(stream)
@@ -192,6 +194,7 @@ func (builder *RuleBuilder) BuildRuleFromResource(name, version string, resource
 		for i, err := range errReporter.Errors {
 			BuilderLog.Errorf("%d : %s", i, err.Error())
 		}
+		rollback()
 
 		return errReporter
 	}
